@@ -8,6 +8,10 @@ the original one: it does when the rest has no filter (selection then depends on
 `ShapeEq`, and the edits below lie too deep to change those) and no further descent (`modF_descent_eq`).
 Excluded, exactly: a filter after the descent (known finding C13-descent-filter-reevaluated), a second descent and
 repeated union members (C13-repeated-location). -/
+set_option linter.unusedSimpArgs false
+set_option linter.unusedSectionVars false
+set_option linter.unusedVariables false
+
 namespace OjgVerif.JPMut
 open OjgVerif OjgVerif.JPath
 
